@@ -7,6 +7,11 @@
     wire len       <val…>                 => ok <n>
     wire r-buf     <kind> <hex>           => ok <val…> <l> | err <e> <l> | PANIC <class>
     wire r-stream  <kind> <hex> <src>     => ok <val…> <readlen> | err <e> | PANIC <class>
+    wire r-hist <kind,kind,…> <mask> <hex> <src>  => ok <readn> <val> / <val> … late <val> / <val> … | err<i> <e>
+         (one stream reader, Read<kind> in turn, Release after read i when mask[i] = 1; at the end Release, the input
+          overwritten, the pool's buffers overwritten; every value rendered when returned and again at the end)
+    wire r-buf-late <s0|s1> <kind> <hex>  => <r-buf result> late <r-buf result after the input was overwritten>
+    msg  unmarshal-late <s0|s1> <hex>     => <unmarshal result> late <the same after the input was overwritten>
     msg  rt <method hex> <type> <seq> <exT> <exM hex>  => <marshal result> | <unmarshal result>
     msg  unmarshal <hex>                  => <unmarshal result>
   val   = bool 0|1 | i8 n | i16 n | i32 n | i64 n | double bits | binary hex | string hex
@@ -159,6 +164,25 @@ def splitSeq (ts : List String) : List (List String) :=
 def parseSeq (ts : List String) : Option (List Val) :=
   (splitSeq ts).foldr (fun g acc => do let v ← parseVal g; let r ← acc; pure (v :: r)) (some [])
 
+/-- `a,b,c` → kinds -/
+def parseKinds (t : String) : Option (List Kind) :=
+  (t.splitOn ",").foldr (fun k acc => do let k ← parseKind k; let r ← acc; pure (k :: r)) (some [])
+
+def parseMask (t : String) : List Bool := t.toList.map (· == '1')
+
+/-- r-hist: Read<kind> in turn on one reader, Release where the mask says so. Values are immutable in the model:
+    the late rendering is the early one. -/
+def histModel : List (Kind × Bool) → Rd → Nat → List Val → String
+  | [], r, _, acc =>
+    let vs := " / ".intercalate (acc.reverse.map valStr)
+    s!"ok {r.readLen} {vs} late {vs}"
+  | (k, rel) :: rest, r, i, acc =>
+    match brRead k r with
+    | .ok (v, r1) => histModel rest (if rel then r1.release else r1) (i + 1) (v :: acc)
+    | .err e => s!"err{i} " ++ terrStr e
+    | .panic s => "PANIC " ++ s
+    | .oob => "OOB"
+
 /-! ## model column -/
 
 def modelWire (args : List String) : String :=
@@ -258,12 +282,28 @@ def modelWire (args : List String) : String :=
     match parseVal vt with
     | some v => s!"ok {length v}"
     | none => "bad-op"
+  | ["r-hist", ks, mask, h, src] =>
+    match parseKinds ks, parseHex h, parseSrc src with
+    | some ks, some b, some src =>
+      if ks.length != mask.length then "bad-mask" else
+      histModel (ks.zip (parseMask mask)) (mkRd b src) 1 []
+    | _, _, _ => "bad-op"
   | ["r-buf", k, h] =>
     match parseKind k, parseHex h with
     | some k, some b =>
       match binRead k b with
       | .ok r => s!"ok {valStr r.1} {r.2}"
       | .err e => s!"err {terrStr e.1} {e.2}"
+      | .panic s => "PANIC " ++ s
+      | .oob => "OOB"
+    | _, _ => "bad-op"
+  | ["r-buf-late", _, k, h] =>
+    -- the decoded value does not depend on what happens to the input afterwards, nor on the allocator setting
+    match parseKind k, parseHex h with
+    | some k, some b =>
+      match binRead k b with
+      | .ok r => s!"ok {valStr r.1} {r.2} late ok {valStr r.1} {r.2}"
+      | .err e => s!"err {terrStr e.1} {e.2} late err {terrStr e.1} {e.2}"
       | .panic s => "PANIC " ++ s
       | .oob => "OOB"
     | _, _ => "bad-op"
@@ -311,6 +351,12 @@ def modelMsg (args : List String) : String :=
   | ["unmarshal", h] =>
     match parseHex h with
     | some b => unresStr (unmarshalFastMsg appExCodec b target0)
+    | none => "bad-op"
+  | ["unmarshal-late", _, h] =>
+    match parseHex h with
+    | some b =>
+      let u := unresStr (unmarshalFastMsg appExCodec b target0)
+      if u.startsWith "PANIC" || u == "OOB" || u == "bad-op" then u else u ++ " late " ++ u
     | none => "bad-op"
   | _ => "bad-op"
 
@@ -370,7 +416,16 @@ def wrapAllowed (src : SrcKind) (e : String) : Bool :=
   e == "pe0(" ++ rerrStr (firstErr (scriptOf src)) ++ ")" ||
   (e == "pe0(noprogress)" && quietRun Facts.maxConsecutiveEmptyReads (scriptOf src) 0)
 
-def verdictWire (args : List String) (impl : String) : String :=
+/-- the spec's reading of the stream: the values whose encodings follow each other in `b`, as long as they decode;
+    with each value the offset behind it -/
+def histSpec : List Kind → Bytes → Nat → List (Kind × Val × Nat)
+  | [], _, _ => []
+  | k :: ks, b, off =>
+    match decodes k (b.drop off) with
+    | some v => (k, v, off + (enc v).length) :: histSpec ks b (off + (enc v).length)
+    | none => []
+
+def verdictWire0 (args : List String) (impl : String) : String :=
   let itoks := impl.splitOn " "
   match args with
   | "w-inplace" :: n :: vt =>
@@ -462,6 +517,42 @@ def verdictWire (args : List String) (impl : String) : String :=
       if !wdom v then "na" else
       if impl == s!"ok {(enc v).length}" then "ok" else s!"bad:{propOf v}:length"
     | none => "na"
+  | ["r-hist", ks, mask, h, src] =>
+    match parseKinds ks, parseHex h, parseSrc src with
+    | some ks, some b, some src =>
+      let sp := histSpec ks b 0
+      match itoks with
+      | "ok" :: n :: rest =>
+        let early := rest.takeWhile (· != "late")
+        let late := (rest.dropWhile (· != "late")).drop 1
+        -- a value that was handed out is still what it was after Release, reuse of the input and of the pool's buffers
+        if early != late then "bad:C16:stale-after-reuse" else
+        let groups := (splitSeq early).map (" ".intercalate ·)
+        if groups.length != ks.length then "bad:protocol" else
+        -- every value whose encoding is in the stream is returned as that value (C01; the message header: C12)
+        match ((groups.zip sp).find? (fun gs => gs.1 != valStr gs.2.2.1)) with
+        | some gs => s!"bad:{propOfK gs.2.1}:stream-read"
+        | none =>
+          -- all decoded: Readn counts from the last Release
+          if sp.length == ks.length then
+            let relAt := ((sp.zip (parseMask mask)).filter (·.2)).map (·.1.2.2)
+            let base := relAt.getLast?.getD 0
+            let total := (sp.getLast?.map (·.2.2)).getD 0
+            if n == toString (total - base) then "ok" else "bad:C01:stream-readn"
+          else "ok"
+      | e :: _ =>
+        if e.startsWith "err" then
+          match (e.drop 3).toNat? with
+          | some i =>
+            -- read i failed although the first i encodings are in the stream and the source delivers all of it
+            if i ≥ 1 && sp.length ≥ i && live b src then
+              (match ks[i - 1]? with | some k => s!"bad:{propOfK k}:stream-read" | none => "bad:protocol")
+            else "ok"
+          | none => "bad:protocol"
+        else if e == "PANIC" then (if sp.length == ks.length && live b src then "bad:C01:stream-read" else "na")
+        else "bad:protocol"
+      | _ => "bad:protocol"
+    | _, _, _ => "na"
   | ["r-buf", k, h] =>
     match parseKind k, parseHex h with
     | some k, some b =>
@@ -536,7 +627,7 @@ def verdictWire (args : List String) (impl : String) : String :=
 def appExEnc (e : AppEx) : Bytes :=
   enc (.fieldBegin 11 1) ++ enc (.str e.m) ++ enc (.fieldBegin 8 2) ++ enc (.i32 e.t) ++ enc .fieldStop
 
-def verdictMsg (args : List String) (impl : String) : String :=
+def verdictMsg0 (args : List String) (impl : String) : String :=
   match args with
   | ["rt", mh, t, s, et, emh] =>
     match parseHex mh, t.toInt?, s.toInt?, et.toInt?, parseHex emh with
@@ -578,6 +669,28 @@ def verdictMsg (args : List String) (impl : String) : String :=
        | _ => "na")
     | _ => "ok"
   | _ => "na"
+
+def verdictWire (args : List String) (impl : String) : String :=
+  match args with
+  | ["r-buf-late", _, k, h] =>
+    match impl.splitOn " late " with
+    | [e, l] =>
+      -- modifying or reusing the input buffer afterwards never changes a previously returned value
+      if e != l then "bad:C16:stale-buf-read" else verdictWire0 ["r-buf", k, h] e
+    | [e] => verdictWire0 ["r-buf", k, h] e
+    | _ => "bad:protocol"
+  | _ => verdictWire0 args impl
+
+def verdictMsg (args : List String) (impl : String) : String :=
+  match args with
+  | ["unmarshal-late", _, hx] =>
+    match impl.splitOn " late " with
+    | [e, l] =>
+      -- method name, exception text and the decoded struct are independent of the receive buffer
+      if e != l then "bad:C16:stale-unmarshal" else verdictMsg0 ["unmarshal", hx] e
+    | [e] => verdictMsg0 ["unmarshal", hx] e
+    | _ => "bad:protocol"
+  | _ => verdictMsg0 args impl
 
 def handle (args : List String) (impl : String) : String × String :=
   match args with
